@@ -32,6 +32,9 @@ type Field struct {
 	Value string
 	Store bool
 	DV    bool
+	// NoIndex makes Index() report false (a stored-only value, as Bluge's
+	// stored-only fields do); only drawn for instances without terms
+	NoIndex bool
 }
 
 type Doc struct {
@@ -61,7 +64,7 @@ func (f fieldA) EachTerm(vt segment.VisitTerm) {
 	}
 }
 func (f fieldA) Value() []byte        { return []byte(f.f.Value) }
-func (f fieldA) Index() bool          { return true }
+func (f fieldA) Index() bool          { return !f.f.NoIndex }
 func (f fieldA) Store() bool          { return f.f.Store }
 func (f fieldA) IndexDocValues() bool { return f.f.DV }
 
@@ -362,6 +365,9 @@ func (b Batch) String() string {
 			fmt.Fprintf(&sb, "%s(len=%d", f.Name, f.Len)
 			if f.Store {
 				fmt.Fprintf(&sb, ",store=%q", f.Value)
+			}
+			if f.NoIndex {
+				sb.WriteString(",noindex")
 			}
 			if f.DV {
 				sb.WriteString(",dv")
